@@ -24,9 +24,11 @@ K_PB_MORE = ['pb_varint_chain', 'bnd_pb_merge_repeated_packed', 'bnd_pb_map_len_
 K_PB = ['pb_varint_roundtrip', 'pb_varint_decode_total', 'pb_varint_decode_value', 'pb_bool', 'pb_int32', 'pb_int64', 'pb_uint32', 'pb_uint64', 'pb_sint32', 'pb_sint64',
         'pb_fixed32', 'pb_sfixed32', 'pb_float', 'pb_fixed64', 'pb_sfixed64', 'pb_double']
 
+A_LB = 'unit unsafe_lb: write_i32, advance_mut, the re-derivation of the window (`self.buf = slice::from_raw_parts_mut(..)`) and the raw copy (`ptr::copy_nonoverlapping`) of the unchecked LinkedBytes writer are ASSUMED contracts written from their bodies (rule D22); no Kani harness reaches LinkedBytes (measured: > 25 min, 22 GB)'
+
 PROPS = {
-    'C01': dict(verus=THRIFT_UNITS, kani=K_SUPPORT + K_C11_W + K_C11_R, assumptions=A_COMMON,
-                not_covered=NOT_GEN + '; unchecked read_field_begin/list/set/map_begin and zero-copy LinkedBytes paths of the unchecked writer are not under a harness (CBMC cost)'),
+    'C01': dict(verus=THRIFT_UNITS + ['unsafe_skip', 'unsafe_lb'], kani=K_SUPPORT + K_C11_W + K_C11_R, assumptions=A_COMMON + [A_LB],
+                not_covered=NOT_GEN + '; the unchecked LinkedBytes writer is decided only for the ORDER of operations in write_faststr / write_bytes / write_bytes_without_len (zero-copy branch) over assumed contracts of its raw-store primitives (unit unsafe_lb); its primitives, write_message_begin and write_field_begin (raw stores) are not decided'),
     'C03': dict(verus=THRIFT_UNITS, kani=K_SUPPORT, assumptions=A_COMMON,
                 not_covered=NOT_GEN + '; ApplicationException::{encode,decode} not yet under contract'),
     'C04': dict(verus=THRIFT_UNITS, kani=K_C11_W, assumptions=A_COMMON,
@@ -41,8 +43,8 @@ PROPS = {
                 not_covered=NOT_GEN + '; unchecked (unsafe) readers are outside the checked-reader scope of C09'),
     'C10': dict(verus=['prost'], kani=['pb_varint_decode_total', 'pb_varint_decode_value', 'pb_varint_roundtrip', 'pb_varint_chain'], assumptions=A_COMMON[:1] + ['decode_varint_slice (unsafe, unrolled) enters Verus through an assumed contract (Ok((v, k)) <=> the slice starts with a well-formed varint of value v and length k); Kani pb_varint_decode_total / pb_varint_decode_value prove that statement on the real code for every input of 0..=11 bytes; that longer slices behave like their first 10 bytes is read off the unrolled code, not proved', 'derive(Clone) of DecodeContext replaced by its field-wise expansion; core::cmp::min redirected to a usize wrapper'],
                 not_covered='decided: decode_varint (dispatch, slow path loop with the shift-and-or accumulation proved equal to the base-128 value), decode_key, check_wire_type, WireType::try_from, DecodeContext::{enter_recursion,limit_reached}: Ok(v) <=> the input starts with a well-formed varint / key, v is its value, exactly its bytes are consumed; skip_field against a recursive grammar of unknown fields (pskip/pgroup: groups end at the end-group key with the group\'s own field number, nest to the recursion budget, length prefixes larger than the input are rejected): Ok <=> well-formed, consumption exact, terminates with the budget as measure. encoding::bytes::merge (length prefix checked against the input before copy_to_bytes, exact consumption, value replaced by exactly the payload). Not decided: merge_loop (FnMut closure), string/message/group/map merge, bytes::merge_one_copy (Buf::take), Message::merge_length_delimited, wrappers in types.rs and generated merge_field'),
-    'C11': dict(verus=['unsafe_skip'], kani=K_C11_W + K_C11_R, assumptions=A_COMMON[:1] + ['the documented preconditions of the unchecked codec (window of the reported size; complete well-formed input) are the harness assumptions'],
-                not_covered='decided besides the per-primitive Kani harnesses: the unchecked header readers read_field_begin / read_list_begin / read_set_begin / read_map_begin and the iterative skipper (Verus unit unsafe_skip: values per the binary grammar, cursor advanced by exactly the encoded size, every unchecked read in bounds given a complete well-formed input). Not decided: the LinkedBytes writer variant and zero-copy insertion, read_bytes/read_faststr/get_bytes (they re-derive the raw-pointer view of the transport)'),
+    'C11': dict(verus=['unsafe_skip', 'unsafe_lb'], kani=K_C11_W + K_C11_R, assumptions=A_COMMON[:1] + [A_LB, 'the documented preconditions of the unchecked codec (window of the reported size; complete well-formed input) are the harness assumptions'],
+                not_covered='decided besides the per-primitive Kani harnesses: the unchecked header readers read_field_begin / read_list_begin / read_set_begin / read_map_begin and the iterative skipper (Verus unit unsafe_skip: values per the binary grammar, cursor advanced by exactly the encoded size, every unchecked read in bounds given a complete well-formed input). The LinkedBytes writer variant is decided only for the order of operations of its zero-copy paths over assumed primitive contracts (unit unsafe_lb). Not decided: its primitives, read_bytes/read_faststr/get_bytes (they re-derive the raw-pointer view of the transport)'),
     'C12': dict(verus=['async_binary', 'async_binary_le', 'async_compact', 'async_skip', 'async_compact_skip'], kani=[], assumptions=A_COMMON + [
                     'A7 tokio AsyncReadExt::{read_u8,read_i8,read_i16[_le],read_i32[_le],read_i64[_le],read_f64[_le],read_exact,take(n).read_to_end} deliver the next bytes of the stream in order regardless of chunking or Pending wake-ups, or fail when the stream ends first (vf/units/_asyncrd.vu); the delivery-schedule quantifier of C12 is discharged by this assumption, not by pilota-side proof; for take(n).read_to_end it is also assumed that tokio reserves memory in proportion to the bytes delivered',
                     'D8: async fn -> fn, .await dropped: each awaited read is an atomic call'],
